@@ -7,7 +7,7 @@ import (
 
 // C06 — natural-language text survives both codecs byte for byte.
 
-var vpC06Props = []string{"name", "summary", "content", "preferredUsername", "source.content", "source.content-without-mediaType", "link.name"}
+var vpC06Props = []string{"name", "summary", "content", "preferredUsername", "source.content", "source.content-without-mediaType", "link.name", "summary-alone-in-embedded-object", "name-alone-in-embedded-object", "content-alone-in-embedded-object"}
 
 // vpC06Value builds the value holding text t at property p in form f
 // (0 single untagged, 1 single tagged, 2 two-language map with t as the first text, 3 map with t as the second text,
@@ -40,6 +40,34 @@ func vpC06Value(p, f int, t []byte) (Item, func(Item) NaturalLanguageValues) {
 		}
 	case 5:
 		return &Object{ID: "https://h.ex/i", Type: NoteType, Source: Source{Content: n}}, func(y Item) NaturalLanguageValues { o, _ := ToObject(y); return o.Source.Content }
+	case 7, 8, 9:
+		// the text is everything an embedded object says (no id, no type)
+		in := &Object{}
+		switch p {
+		case 7:
+			in.Summary = n
+		case 8:
+			in.Name = n
+		default:
+			in.Content = n
+		}
+		return &Object{ID: "https://h.ex/i", Type: NoteType, Tag: ItemCollection{IRI("https://h.ex/t"), in}}, func(y Item) NaturalLanguageValues {
+			o, _ := ToObject(y)
+			if o == nil || len(o.Tag) != 2 {
+				return nil
+			}
+			e, _ := ToObject(o.Tag[1])
+			if e == nil {
+				return nil
+			}
+			switch p {
+			case 7:
+				return e.Summary
+			case 8:
+				return e.Name
+			}
+			return e.Content
+		}
 	case 6:
 		return &Link{ID: "https://h.ex/i", Type: MentionType, Href: "https://h.ex/l", Name: n}, func(y Item) NaturalLanguageValues {
 			l, _ := ToLink(y)
